@@ -217,7 +217,7 @@ func (i StringAnyMapInspector) Capacity(x any, result *int, path ...string) erro
 	if !ok {
 		return nil
 	}
-	return i.Length(x1, result, path[1:]...)
+	return i.Capacity(x1, result, path[1:]...)
 }
 
 func (i StringAnyMapInspector) Reset(x any) error {
